@@ -12,6 +12,7 @@ EXPLANATION = (
     "(R5 also: the window fields are not advanced again after the pop, and the bound written is the popped node's own time.) "
     '(R5 also: the scan window is stepped, never repositioned - a new window value is computed from the window and the queue parameters only; R8) no timestamp or bucket width is read in a unit coarser than its resolution (index grid and window grid agree); (R9) list nodes are linked / unlinked on both sides (shared with C15.R4). '
     '(R10) the event id counter is only ever incremented (handles stay unique). '
+    "(R5 also: the scan window is written by the scan and the resize only, and the front time of a bucket is read from its first node, not from a cached value.) "
     "Decides these necessary conditions only; not the time order / exactly-once behaviour over operation histories.")
 ASSUMPTIONS = [
     "VecDeque/BinaryHeap/Vec behave as documented",
